@@ -1,5 +1,8 @@
 use iggy::utils::duration::IggyDuration;
+#[cfg(not(kani))]
 use moka::future::Cache;
+#[cfg(kani)]
+use iggy::verif_model::cache::Cache;
 
 #[derive(Debug)]
 pub struct MessageDeduplicator {
